@@ -236,8 +236,8 @@ def run_item(item, tier):
         rej[0] += 1 if info.get("rejected") else 0
         return c, v, d, info
     depth = DEPTH[tier]
-    if tier == "quick" and r not in ("flat", "tree"):
-        depth -= 1
+    if r not in ("flat", "tree"):
+        depth -= 1      # quick: 3 on flat / tree, 2 elsewhere; thorough: 4 / 3
     res = bfs.explore(rh, lambda h, i: alpha, depth, prefix=[item["first"]])
     res.samples = [{"root": r, "history": h} for h in res.samples[:1]]
     out = res.as_item_result()
